@@ -49,7 +49,7 @@ def fold(op, vals):
 def make_cases(tier, seed):
     g = Rng(seed * 104729 + 16)
     cases = []
-    nrun = 26 if tier == "quick" else 160
+    nrun = 26 if tier == "quick" else 480
     for i in range(nrun):
         nodes, ppn = LAYOUTS[i % len(LAYOUTS)]
         target = "rarr" if i % 3 == 2 else "rmap"
